@@ -238,7 +238,11 @@ class Scrollable(WidgetDecoration[WrappedWidget]):
             # Canvas is lower than available vertical space
             canv.pad_trim_top_bottom(0, fill_height)
 
+        old_trim_top = self._trim_top
         self._adjust_trim_top(canv, size)
+        if self._trim_top != old_trim_top:
+            # canvases cached for other sizes / focus states still show the old scroll position
+            self._invalidate()
 
         # Trim canvas if necessary
         trim_top = self._trim_top
